@@ -2478,3 +2478,71 @@ Proof.
   destruct Hj as [H|[H|[H|[H|[hash [txs [a [_ [_ [_ [_ [Hf Hm]]]]]]]]]]]]; auto.
   exfalso. apply mem_uuid_In in Hm. exact (HR _ Hm Hf).
 Qed.
+
+(* ------------------------------------------------------------------------------------------ *)
+(* 10. complements *)
+
+(* frame of the watcher's listener, row by row *)
+Corollary w_block_connected_rows_kept sc t hash txs h t' a :
+  Inv t -> w_block_connected sc t (cache_block hash txs) h = Ok tt t' ->
+  In a (db_apps t) -> memN (a_loc a) txs = false -> In a (db_apps t').
+Proof.
+  intros HI Hw Ha Hm. destruct (w_block_connected_frame sc t hash txs h t' HI Hw) as [-> _].
+  apply filter_In. split; [exact Ha|]. unfold survives_block. rewrite Hm. reflexivity.
+Qed.
+
+(* "reported as dispute_responded with exactly that penalty and dispute": while the tracker row is
+   held, its owner's get_appointment answers with the tracker's dispute and penalty *)
+Theorem get_reports_responded le t sc k ui :
+  Inv t -> In k (db_trks t) ->
+  amem (gk_users t) (t_user k) = true -> gk_get t (t_user k) = Some ui -> gk_height t < u_expiry ui ->
+  step le t (OGet (Some (t_user k)) (t_loc k)) sc = (fresh t, OGetRes (GetTrk (t_dispute k) (t_penalty k))).
+Proof.
+  intros HI Hk Hm Hg He. cbn [step wrap]. unfold w_get_appointment, authenticate.
+  change (set_rpc_log t []) with (fresh t).
+  change (gk_users (fresh t)) with (gk_users t). rewrite Hm.
+  change (gk_get (fresh t) (t_user k)) with (gk_get t (t_user k)). rewrite Hg.
+  change (gk_height (fresh t)) with (gk_height t).
+  apply N.leb_gt in He. rewrite He.
+  change (db_trks (fresh t)) with (db_trks t). change (db_apps (fresh t)) with (db_apps t).
+  change (t_loc k, t_user k) with (trk_uuid k).
+  rewrite (find_trk_NoDup _ k (inv_trks_nodup t HI) Hk).
+  destruct (inv_fk_trk t HI k Hk) as [a [Ha Hu]].
+  destruct (find_app_In _ _ Ha) as [a' Hf]. rewrite Hu in Hf. rewrite Hf. reflexivity.
+Qed.
+
+(* The four-way form of every_send_justified is FALSE of states that merely satisfy Inv: the
+   hypothesis reorged_tracked (or the fifth case of just_send) is needed.  Witness: the state
+   after a registration and an appointment (500,1), with `reorged` set to [(500,1)] although there
+   is no tracker; the block [500] makes the watcher respond (penalty 900) and the responder
+   re-announce the DISPUTE 500 of the tracker just created. *)
+Module Refute.
+  Definition c0 := mk_config 10 1000 6.
+  Definition blocks0 : list (N * list N) := [(1006,[]);(1005,[]);(1004,[]);(1003,[]);(1002,[]);(1001,[])].
+  Definition pre : list (op * script) :=
+    [(ORegister 1, []); (OAdd (Some 1) 500 (mk_blob 500 (Some 900) 100) 20 77, [])].
+  Definition witness (t0 : tower) : tower := set_reorged (fst (run true t0 pre)) [(500, 1)].
+End Refute.
+
+Theorem every_send_justified_refuted :
+  exists le t o sc t' x e,
+    Inv t /\ step le t o sc = (t', x) /\ not_abort x /\ In e (rpc_log t') /\ r_kind e = K_send /\
+    ~ just_send4 t o (r_tx e).
+Proof.
+  destruct (init Refute.c0 200 Refute.blocks0) as [t0|] eqn:Ei; [|vm_compute in Ei; discriminate].
+  exists true, (Refute.witness t0), (OConnect 2001 [500]), [].
+  assert (HI : Inv (Refute.witness t0)).
+  { apply (inv_frame (fst (run true t0 Refute.pre))); [repeat split|].
+    apply (inv_reachable true Refute.c0 200 Refute.blocks0 t0 Refute.pre Ei).
+    vm_compute in Ei. injection Ei as <-. vm_compute. repeat constructor. }
+  vm_compute in Ei. injection Ei as <-.
+  eexists. eexists. exists (mk_rpc K_send 500 (InMempoolSince 201)).
+  split; [exact HI|]. split; [vm_compute; reflexivity|]. split; [exact I|].
+  split; [vm_compute; left; reflexivity|]. split; [reflexivity|].
+  cbn [r_tx]. intros [H|[H|[H|H]]].
+  - destruct H as [hash [txs [a [_ [Ha [_ Hd]]]]]]. vm_compute in Ha. destruct Ha as [<-|[]].
+    vm_compute in Hd. discriminate.
+  - destruct H as [k [Hk _]]. vm_compute in Hk. exact Hk.
+  - destruct H as [k [Hk _]]. vm_compute in Hk. exact Hk.
+  - destruct H as [u [loc [b [delay [sig [d [Ho _]]]]]]]. discriminate.
+Qed.
